@@ -7173,7 +7173,7 @@ impl<'a> Tyck<'a> for TyEnvT<su::TermId> {
                 for su::Matcher { binder, tail } in arms {
                     let binder_elaboration = self
                         .mk(binder)
-                        .tyck_k(tycker, PatternAction::ana(scrut_ty_unroll.into()))?;
+                        .tyck_k(tycker, PatternAction::ana(scrut_ty.into()))?;
                     let (binder, _ty) = binder_elaboration.try_as_value(
                         tycker,
                         TyckError::SortMismatch,
